@@ -63,6 +63,47 @@ bool RouterSession::extraOp(const Json &op, const std::string &o, std::string &e
         edited = true; probe("router.moveJunction");
         return true;
     }
+    if (o == "transformPins") {
+        // ShapeRef::transformConnectionPinPositions(): the client has rotated / flipped the shape and the pins follow.
+        // Model written from the documentation of ShapeTransformationType (screen coordinates, y down):
+        //   CW90 (x,y)->(1-y,x)  CW180 (x,y)->(1-x,1-y)  CW270 (x,y)->(y,1-x)  FlipX x->1-x  FlipY y->1-y, directions likewise.
+        // Absolute-offset pins are only taken through the transforms that keep the bounding box (CW180, flips).
+        int k = (int)op["id"].i(); int t = (int)op.i("t", 1);
+        auto it = shapes.find(k);
+        if (it == shapes.end() || !it->second.alive || it->second.pins.empty() || t < 0 || t > 4) return false;
+        bool hasAbs = false; for (auto &pm : it->second.pins) if (!pm.prop) hasAbs = true;
+        if (hasAbs && (t == 0 || t == 2)) return false;
+        // absolute offsets are inverted against the polygon the router currently holds; with a resize of this shape still
+        // queued in the same transaction the documentation does not say which box counts: not generated
+        if (hasAbs && useTransactions && reshapedThisTxn.count(k)) return false;
+        RectB b = bbox(it->second.poly);
+        auto inv = [](double off, double len) { return off == 0 ? -1.0 : off == -1 ? 0.0 : len - off; };
+        auto mapDirs = [t](unsigned d) -> unsigned {
+            if (d == 15 || d == 0) return d;
+            bool U = d & 1, D = d & 2, L = d & 4, R = d & 8, u, dn, l, r;
+            switch (t) {
+                case 0: r = U; dn = R; l = D; u = L; break;          // clockwise quarter turn: up -> right -> down -> left -> up
+                case 1: u = D; dn = U; l = R; r = L; break;
+                case 2: l = U; dn = L; r = D; u = R; break;          // three quarter turns: up -> left -> down -> right -> up
+                case 3: u = U; dn = D; l = R; r = L; break;
+                default: u = D; dn = U; l = L; r = R; break;
+            }
+            return (u ? 1u : 0u) | (dn ? 2u : 0u) | (l ? 4u : 0u) | (r ? 8u : 0u);
+        };
+        for (auto &pm : it->second.pins) {
+            double x = pm.xo, y = pm.yo;
+            if (pm.prop) {
+                switch (t) { case 0: pm.xo = 1 - y; pm.yo = x; break; case 1: pm.xo = 1 - x; pm.yo = 1 - y; break; case 2: pm.xo = y; pm.yo = 1 - x; break; case 3: pm.xo = 1 - x; break; default: pm.yo = 1 - y; break; }
+            } else {
+                if (t == 1 || t == 3) pm.xo = inv(x, b.w);
+                if (t == 1 || t == 4) pm.yo = inv(y, b.h);
+            }
+            pm.dirs = mapDirs(pm.dirs);
+        }
+        ex = guardedLocal([&] { it->second.ref->transformConnectionPinPositions((ShapeTransformationType)t); });
+        edited = true; probe("router.transformPins");
+        return true;
+    }
     if (o == "deleteJunction") {
         int k = (int)op["id"].i();
         auto it = junctions.find(k);
@@ -144,11 +185,14 @@ void RouterSession::checkPins(const char *when) {
             probe("router.pin-end-checked");
             pinUsers[std::make_tuple(ce.shape, ce.cls, found)]++;
             const PinM &pm = sh.pins[found];
-            if (ortho && pm.dirs != 15 && pm.dirs != 0) {
+            // ConnDirNone = "use the default for the pin's position": the side it sits on, all directions for interior pins
+            unsigned effDirs = pm.dirs;
+            if (effDirs == 0 && pm.prop) { if (pm.xo == 0) effDirs |= 4; else if (pm.xo == 1) effDirs |= 8; if (pm.yo == 0) effDirs |= 1; else if (pm.yo == 1) effDirs |= 2; if (effDirs == 0) effDirs = 15; }
+            if (ortho && effDirs != 15 && effDirs != 0) {
                 bool up = q.y < p.y && q.x == p.x, down = q.y > p.y && q.x == p.x, left = q.x < p.x && q.y == p.y, right = q.x > p.x && q.y == p.y;
-                bool ok = ((pm.dirs & 1) && up) || ((pm.dirs & 2) && down) || ((pm.dirs & 4) && left) || ((pm.dirs & 8) && right);
+                bool ok = ((effDirs & 1) && up) || ((effDirs & 2) && down) || ((effDirs & 4) && left) || ((effDirs & 8) && right);
                 bool boundary0 = pm.inside == 0;
-                if (!ok) violate("C11", "pin-direction", "leaves-pin-in-forbidden-direction" + z0, fmt("(%g,%g)->(%g,%g) dirs %u; %s", p.x, p.y, q.x, q.y, pm.dirs, ctx.c_str()));
+                if (!ok) violate("C11", "pin-direction", "leaves-pin-in-forbidden-direction" + z0, fmt("(%g,%g)->(%g,%g) dirs %u (given %u); %s", p.x, p.y, q.x, q.y, effDirs, pm.dirs, ctx.c_str()));
             }
         }
         // checkpoints in order on route()
@@ -292,6 +336,23 @@ void RouterSession::checkNudging(const char *when) {
                     return;
                 } else if (rawShared) {
                     probe("router.c10-shared-path-separated");
+                    // in a channel with room for every connector of the scene on both sides of the shared path nothing justifies a
+                    // reduced distance: "at least the nudging distance apart"
+                    if (sep < nd - 1e-6 && !aEnd && !bEnd) {
+                        double c0 = coord(raw[i][p - 1], dim);
+                        auto room = [&](Pt s0, Pt s1) {
+                            double elo = std::min(coord(s0, o), coord(s1, o)), ehi = std::max(coord(s0, o), coord(s1, o));
+                            double fl = 1e9, fh = 1e9;
+                            for (auto &bx : boxes) {
+                                double olo = o ? bx.y : bx.x, ohi = o ? bx.y + bx.h : bx.x + bx.w;
+                                double plo = dim ? bx.y : bx.x, phi = dim ? bx.y + bx.h : bx.x + bx.w;
+                                if (ohi < elo || olo > ehi) continue;
+                                if (phi <= c0) fl = std::min(fl, c0 - phi); else if (plo >= c0) fh = std::min(fh, plo - c0); else { fl = 0; fh = 0; }
+                            }
+                            return std::min(fl, fh) >= (m + 1) * nd;
+                        };
+                        if (room(a0, a1) && room(b0, b1)) { violate("C10", "min-distance", "separated-by-less-than-the-nudging-distance-in-a-wide-channel", fmt("conns %d,%d: %g < %g on %s after %s;%s", ids[i], ids[j], sep, nd, dim ? "y" : "x", when, describeScene().c_str())); return; }
+                    }
                     if (sep < nd / 10 - 1e-6) { violate("C10", "min-distance", "separated-by-less-than-the-reduced-nudging-distance", fmt("conns %d,%d: %g < %g/10 after %s", ids[i], ids[j], sep, nd, when)); return; }
                 }
             }
@@ -321,11 +382,12 @@ static void genPins(SceneGen &sg, int id, Json &o, bool allowZeroInside) {
         pins.push(p); s.pins.push_back(p);
     };
     // class 1: four side pins (exclusive), class 2: shared centre pin, class 3: one extra boundary pin with a quarter offset or absolute offset
-    bool sidesAll = r.chance(0.3);
-    add(1, 0, 0.5, true, inside, sidesAll ? 15 : 4, true);
-    add(1, 1, 0.5, true, inside, sidesAll ? 15 : 8, true);
-    add(1, 0.5, 0, true, inside, sidesAll ? 15 : 1, true);
-    add(1, 0.5, 1, true, inside, sidesAll ? 15 : 2, true);
+    int dmode = (int)r.below(10);
+    bool sidesAll = dmode < 3, sidesDefault = dmode >= 3 && dmode < 5;      // all directions; ConnDirNone = the default for the side the pin sits on; explicit
+    add(1, 0, 0.5, true, inside, sidesAll ? 15 : sidesDefault ? 0 : 4, true);
+    add(1, 1, 0.5, true, inside, sidesAll ? 15 : sidesDefault ? 0 : 8, true);
+    add(1, 0.5, 0, true, inside, sidesAll ? 15 : sidesDefault ? 0 : 1, true);
+    add(1, 0.5, 1, true, inside, sidesAll ? 15 : sidesDefault ? 0 : 2, true);
     add(2, 0.5, 0.5, true, 0, 15, false);
     if (r.chance(0.5)) add(3, r.pick(std::vector<double>{0.25, 0.75}), 0, true, inside, r.chance(0.5) ? 1 : 15, r.chance(0.7));
     else add(3, -1, 7, false, inside, r.chance(0.5) ? 8 : 15, r.chance(0.7));      // absolute: right edge, 7 below the top (never coincides with a side pin)
@@ -370,6 +432,19 @@ static Json genC11(const std::string &prop, uint64_t seed, const std::string &ti
     };
     if (tier == "thorough") { g.maxShapes = 8; g.maxConns = 8; g.maxSteps = 9; }
     if (r.chance(0.3)) addJunctionOps(g, 0.5);          // "an end attached to a junction ends at the junction's position"
+    if (r.chance(0.4)) {                                // the client rotates / flips shapes: the pins (and the attached routes) follow
+        auto prev = g.editHook;
+        g.editHook = [prev](SceneGen &sg, Json &ops) {
+            if (prev && sg.r.chance(0.5)) { prev(sg, ops); return; }
+            std::vector<int> ids; for (auto &kv : sg.shapes) if (kv.second.alive && !kv.second.pins.empty()) ids.push_back(kv.first);
+            if (ids.empty()) { if (prev) prev(sg, ops); return; }
+            int id = sg.r.pick(ids);
+            bool hasAbs = false; for (auto &pj : sg.shapes[id].pins) if (!pj.boolean("prop", true)) hasAbs = true;
+            long t = hasAbs ? sg.r.pick(std::vector<long>{1, 3, 4}) : (long)sg.r.below(5);
+            Json o = Json::obj(); o.set("op", "transformPins"); o.set("id", id); o.set("t", t); ops.push(o);
+        };
+        g.wMove = std::min(g.wMove, 48);                // leaves 12 % or more of the edits to the hook
+    }
     ss.push(genRouterSession(r, g));
     if (r.chance(0.3)) ss.push(r.chance(0.5) ? genOverlapSession(r, "quick") : genSolverSession(r, "quick"));
     p.set("sessions", ss);
@@ -391,6 +466,37 @@ static Json genNudgeSession(Rng &r, const std::string &tier) {
     cfg.set("style", "ortho+nudging");
     s.set("cfg", cfg);
     Json ops = Json::arr();
+    if (r.chance(0.12)) {
+        // swarm member "doors": a wall with a door far too narrow for the connectors that must pass it (their separation gets
+        // reduced, possibly to nothing -- legitimate) and a door many times wider than needed, where the property does demand
+        // separation at the requested distance.  Which group is created first (= has the lower ids) is drawn.
+        double nd2 = r.pick(std::vector<double>{10, 20, 40}); params.set("7", nd2); cfg.set("params", params); cfg.set("style", "ortho+nudging+doors"); s.set("cfg", cfg);
+        int kn = r.range(2, 3), kw = r.range(2, 3);
+        // the wide door is wide by the oracle's own (conservative) measure: room for every connector of the scene on both sides of its middle
+        double g = r.pick(std::vector<double>{4, 6, 8}), W = 2 * (kn + kw + 1) * 40.0 + 100 * (double)r.range(1, 3);
+        bool vertical = r.chance(0.5);      // the wall may also stand upright (x and y swapped)
+        auto P = [&](double x, double y) { return vertical ? Pt{y, x} : Pt{x, y}; };
+        auto rect = [&](double x0, double x1, double y0, double y1) { RectB c = vertical ? RectB{y0, x0, y1 - y0, x1 - x0} : RectB{x0, y0, x1 - x0, y1 - y0}; return c; };
+        std::vector<RectB> walls{rect(-500, 100, 90, 110), rect(100 + g, 700, 90, 110), rect(700 + W, 2700, 90, 110)};
+        int sid2 = 0;
+        for (auto &c : walls) { Json o = Json::obj(); o.set("op", "addShape"); o.set("id", sid2++); Json pj = Json::arr(); for (auto &q : rectPoly(c)) pj.push(ptJ(q)); o.set("poly", pj); o.set("rect", true); ops.push(o); }
+        std::vector<std::pair<Pt, Pt>> narrow, wide;
+        for (int i = 0; i < kn; i++) narrow.push_back({P(40, 30 + 20 * i), P(160 + g, 170 - 20 * i)});
+        for (int i = 0; i < kw; i++) wide.push_back({P(600, 30 + 20 * i), P(800 + W, 170 - 20 * i)});
+        bool narrowFirst = r.chance(0.5);
+        std::vector<std::pair<Pt, Pt>> all;
+        if (narrowFirst) { all = narrow; all.insert(all.end(), wide.begin(), wide.end()); } else { all = wide; all.insert(all.end(), narrow.begin(), narrow.end()); }
+        int cid2 = 0;
+        for (auto &e : all) {
+            Json o = Json::obj(); o.set("op", "addConn"); o.set("id", cid2++);
+            Json ea = Json::obj(); ea.set("pt", ptJ(e.first)); Json eb = Json::obj(); eb.set("pt", ptJ(e.second)); o.set("src", ea); o.set("dst", eb); o.set("ctor", (long)r.below(2));
+            ops.push(o);
+        }
+        { Json o = Json::obj(); o.set("op", "process"); ops.push(o); }
+        if (r.chance(0.5)) { Json o = Json::obj(); o.set("op", "setParam"); o.set("param", 7); o.set("value", r.pick(std::vector<double>{10, 20, 40})); ops.push(o); Json q = Json::obj(); q.set("op", "process"); ops.push(q); }
+        s.set("ops", ops);
+        return s;
+    }
     int gx = r.range(2, 4), gy = r.range(2, 3);
     std::vector<RectB> rs; std::vector<int> ids;
     int sid = 0;
